@@ -383,6 +383,63 @@ theorem select_all_spec {t : RefTable} {query : List Nat} {parents : List Parent
 example : selectAll sampleTable [3, 9, 0, 2] [⟨[2], 1⟩, ⟨[], 2⟩] 7 (fun _ => tieFirst)
     = .ok [.ok [0, 2], .ok []] := by decide
 
+/-! ## several reference-marker files -/
+
+/-- `create_marker_gene_lookup_from_ref_list` with several reference-marker
+files (`selectMulti`): a parent is selected on the file with the largest cell
+census under it (the first such file), and on THAT file's table, with the
+WHOLE query (not the genes common to all files), its selection satisfies all
+clauses of C12: duplicate-free, in the query, each gene a marker (in that file)
+of a pair the parent must discriminate, every such pair covered up to
+`min (2n) (its markers in that file available in the query)`. -/
+theorem multi_spec {tables : List RefTable} {query : List Nat} {parents : List MParent}
+    {cutoff : Nat} {ties : Nat → Tie}
+    (hts : ∀ t ∈ tables, TableWF t) (i : Nat) (p : MParent) (names : List Nat)
+    (hp : parents[i]? = some p)
+    (hr : (selectMulti tables query parents cutoff ties)[i]? = some (Except.ok names)) :
+    ∃ (f : Nat) (t : RefTable) (m : Nat), tables[f]? = some t ∧ p.census[f]? = some m ∧
+      (∀ (k v : Nat), p.census[k]? = some v → v ≤ m) ∧
+      (∀ k, k < f → ∀ v, p.census[k]? = some v → v < m) ∧
+      names.Nodup ∧ (∀ g ∈ names, g ∈ query ∧ g < t.nGenes) ∧
+      (∀ g ∈ names, ∃ k ∈ p.leaves, ∃ pr : Pair, t.pairs[k]? = some pr ∧
+        (g ∈ pr.up ∨ g ∈ pr.down)) ∧
+      (∀ k ∈ p.leaves, ∀ pr : Pair, t.pairs[k]? = some pr →
+        min (2 * p.n) ((pr.up ++ pr.down).countP (fun g => query.contains g))
+          ≤ names.countP (fun g => (pr.up ++ pr.down).contains g)) := by
+  simp only [selectMulti, List.getElem?_map, List.getElem?_zipIdx, Option.map_eq_some_iff] at hr
+  obtain ⟨⟨p1, j1⟩, ⟨p', hp', hpe⟩, hs⟩ := hr
+  rw [hp] at hp'
+  simp only [Option.some.injEq] at hp'
+  subst hp'
+  simp only [Prod.mk.injEq] at hpe
+  obtain ⟨rfl, rfl⟩ := hpe
+  simp only at hs
+  cases hf : assignFile p.census with
+  | none => rw [hf] at hs; cases hs
+  | some f =>
+    rw [hf] at hs
+    simp only at hs
+    cases ht : tables[f]? with
+    | none => rw [ht] at hs; cases hs
+    | some t =>
+      rw [ht] at hs
+      simp only at hs
+      cases hth : thin t query with
+      | error e => rw [hth] at hs; cases hs
+      | ok th =>
+        rw [hth] at hs
+        simp only at hs
+        obtain ⟨m, hm1, hm2, hm3⟩ := assignFile_spec hf
+        have htw : TableWF t := hts t (List.mem_of_getElem? ht)
+        obtain ⟨h1, h2, h3⟩ := wf htw hth hs
+        exact ⟨f, t, m, ht, hm1, hm2, hm3, h1, h2, h3, coverage htw hth hs⟩
+
+example : assignFile [3, 7, 7, 2] = some 1 ∧ assignFile [] = none := by decide
+
+example : selectMulti [sampleTable, ⟨2, [⟨[0], [1]⟩, ⟨[], []⟩, ⟨[], [1]⟩]⟩] [3, 9, 0, 2, 1]
+    [⟨[2], 1, [5, 1]⟩, ⟨[0], 1, [2, 4]⟩] 7 (fun _ => tieFirst) = [.ok [0, 2], .ok [0, 1]] := by
+  decide
+
 /-! ## indep -/
 
 /-- "The selection is the same for … any threshold deciding which parents are
